@@ -483,10 +483,13 @@ class B(A):
 '''
 
 
-def _shared_attr_mutations(classes):
+def _shared_attr_mutations(classes, module_funcs=()):
     """classes: list of ast.ClassDef.  Attributes bound to the result of a cached function (shared by every instance that asks
     with the same arguments) and the in-place changes of such an attribute anywhere in the given classes"""
     cached = set()
+    for f in module_funcs:
+        if isinstance(f, ast.FunctionDef) and any(ast.unparse(d.func if isinstance(d, ast.Call) else d).split('.')[-1] in ('cache', 'lru_cache') for d in f.decorator_list):
+            cached.add(f.name)
     for c in classes:
         for f in c.body:
             if isinstance(f, ast.FunctionDef) and any(ast.unparse(d.func if isinstance(d, ast.Call) else d).split('.')[-1] in ('cache', 'lru_cache') for d in f.decorator_list):
@@ -519,7 +522,7 @@ def r8(ctx, R):
         by_mod.setdefault(ci.module.relpath, []).append(ci.node)
     n = 0
     for rel, nodes in sorted(by_mod.items()):
-        sh, mu = _shared_attr_mutations(nodes)
+        sh, mu = _shared_attr_mutations(nodes, [x for x in repo.by_relpath[rel].tree.body if isinstance(x, ast.FunctionDef)])
         for a in sh:
             n += 1
         if sh:
